@@ -125,9 +125,10 @@ def el(g, a):
 class ElemSource:
     """elements whose attribute/charset is related to the previous one"""
 
-    def __init__(self, r, wild=False):
+    def __init__(self, r, wild=False, ctl=False):
         self.r = r
         self.wild = wild
+        self.ctl = ctl
         self.prev_attr = DEFAULT_ATTR
         self.prev_cs = 5
 
@@ -148,6 +149,9 @@ class ElemSource:
             g = wf_glyph(r)
             if r.chance(1, 2) and g[0] != self.prev_cs and self.prev_cs != 18 and g[0] != 18:
                 g = (self.prev_cs,) + g[1:]
+            if self.ctl and r.chance(1, 12):
+                # a format effector written as an element (newline in a string, tab, ...)
+                g = (r.pick([5, 5, g[0]]), r.pick([10, 10, 13, 9, 8]), 0, 0)
         self.prev_attr, self.prev_cs = a, g[0]
         return el(g, a)
 
@@ -170,7 +174,7 @@ def gen_term_case(r, idx, wild=False, nops=None, kinds=None):
         lines.append("T 0 size %d %d" % (w, h))
     else:
         w, h = 0, 0
-    es = ElemSource(r, wild)
+    es = ElemSource(r, wild, ctl=not wild)
     cur = None
     n = nops if nops is not None else r.rng(2, 14)
     for _ in range(n):
@@ -225,7 +229,7 @@ def gen_term_case(r, idx, wild=False, nops=None, kinds=None):
         elif k < 30:
             lines.append("T 0 buf %d" % r.below(2))
         elif k < 31:
-            t = [r.rng(0x20, 0x7E) for _ in range(r.below(6))]
+            t = [r.rng(0x20, 0x7E) if r.chance(3, 4) else r.rng(0xA0, 0xFF) for _ in range(r.below(8))]
             if wild and r.chance(1, 2):
                 t = [r.below(256) for _ in range(r.below(5))]
             lines.append("T 0 title " + hexs(t))
@@ -616,10 +620,12 @@ def gen_markup_case(r, idx, respell=False):
             markup += [92, 112, 45 if nneg else 43]
         if nul != ul or (respell and r.chance(1, 8)):
             markup += [92, 117, 43 if nul else 45]
-        if nfg != fg or (respell and r.chance(1, 8)):
-            markup += x_colour_markup(nfg, True, r, respell)
-        if nbg != bg or (respell and r.chance(1, 8)):
-            markup += x_colour_markup(nbg, False, r, respell)
+        mfg = x_colour_markup(nfg, True, r, respell) if (nfg != fg or (respell and r.chance(1, 8))) else []
+        mbg = x_colour_markup(nbg, False, r, respell) if (nbg != bg or (respell and r.chance(1, 8))) else []
+        if respell and r.chance(1, 2):
+            markup += mbg + mfg      # the order of directives is immaterial
+        else:
+            markup += mfg + mbg
         fg, bg, inten, ul, neg = nfg, nbg, nint, nul, nneg
         attr = x_colour_elem(fg) + x_colour_elem(bg) + (inten, ul, neg, 0)
         if uni:
